@@ -10,6 +10,7 @@ import (
 
 	"verif/harness/hcx"
 	"verif/harness/script"
+	"verif/refctl"
 	"verif/vf"
 )
 
@@ -142,4 +143,59 @@ func receivingEnd(r *vf.Run, rnd *rand.Rand) {
 		}
 	}
 	r.Floor("receiving_end_streams", int(r.Counter("receiving_end_streams"))+100000*bad, len(jobs))
+}
+
+// truncatedThenComplete: a Decrypt call that is handed a reader which ends inside a frame (the rest has not arrived)
+// reports an error.  The frame was not opened, so nothing may have been spent on it: when the same bytes are presented
+// completely they come out identical, and so do the messages after them.  Every cut offset of single-frame messages of
+// several sizes, once and twice in a row.
+func truncatedThenComplete(r *vf.Run, rnd *rand.Rand) {
+	bad := 0
+	for _, n := range []int{1, 16, 100, 1024} {
+		for cut := 0; cut < n+18 && bad < 5; cut += 1 + (n+18)/r.Pick(40, 400) {
+			r.Eval()
+			var secret [32]byte
+			rnd.Read(secret[:])
+			acc, err := crypto.NewSecureSessionFromSharedKey(secret)
+			if err != nil {
+				r.Inconclusive("session constructor: " + err.Error())
+				return
+			}
+			c2a, _ := refctl.SessionKeys(secret[:])
+			fr := &refctl.Framer{Key: c2a}
+			p1, p2 := make([]byte, n), make([]byte, 2500)
+			rnd.Read(p1)
+			rnd.Read(p2)
+			w1, w2 := fr.SealFrames(p1, nil), fr.SealFrames(p2, nil)
+			attempts := 1 + cut%2
+			for a := 0; a < attempts; a++ {
+				if rd, err := acc.Decrypt(bytes.NewReader(w1[:cut])); err == nil && cut > 0 {
+					got, _ := ioutil.ReadAll(rd)
+					if len(got) > 0 {
+						bad++
+						r.Violation("truncated:released", fmt.Sprintf("a frame cut after %d of %d bytes released %d plaintext bytes", cut, len(w1), len(got)), nil)
+					}
+				}
+			}
+			r.Count("truncated_then_complete_cases", 1)
+			r.Nontrivial(fmt.Sprintf("truncated/%d/%d/%d", n, cut, attempts))
+			ok := true
+			for k, pair := range [][2][]byte{{w1, p1}, {w2, p2}} {
+				rd, err := acc.Decrypt(bytes.NewReader(pair[0]))
+				var got []byte
+				if rd != nil {
+					got, _ = ioutil.ReadAll(rd)
+				}
+				if err != nil || !bytes.Equal(got, pair[1]) {
+					ok = false
+					bad++
+					r.Violation("truncated:complete-message-lost", fmt.Sprintf("after %d Decrypt call(s) on the first %d of %d bytes of a single-frame message (reported as errors), message %d presented completely comes out as %d of %d bytes, error %v", attempts, cut, len(w1), k, len(got), len(pair[1]), err),
+						map[string]interface{}{"cut": cut, "frame_bytes": len(w1), "attempts": attempts, "secret": vf.Hex(secret[:])})
+					break
+				}
+			}
+			_ = ok
+		}
+	}
+	r.Floor("truncated_then_complete_cases", int(r.Counter("truncated_then_complete_cases"))+100000*bad, 100)
 }
